@@ -10,7 +10,7 @@ from bvt.vloop import Hang, VLoop
 ID = 'C20'
 LEVEL = 'exploration'
 RULE = (
-    'Generated plans: semaphore_limit L 1-3, scope global/class/self over 2 classes x 3 instances, 2-8 callers per '
+    'Generated plans: semaphore_limit L 1-3, scope global/class/self over 2 classes x 3 instances, two decorated functions sharing one semaphore_name, 2-8 callers per '
     'session with start times, body durations, outcomes (return, raise with retries, attempt timeouts), cancellation '
     'while waiting or running or a few loop ticks after the call (the system-overload check is made due on every call), semaphore_timeout (None or off-grid), lax on/off; 1-3 successive virtual-time event '
     'loops in one process re-using the same semaphore name. Oracle: per scope key, bodies in progress that did not wait '
@@ -49,6 +49,7 @@ def _case(draw):
                 'cancel': draw(st.one_of(st.none(), st.none(), st.integers(0, 300).map(lambda k: k / 8 + 1 / 64))),
                 # cancellation a few event-loop ticks after the call was issued (between acquiring the slot and running the body)
                 'cancel_ticks': draw(st.one_of(st.none(), st.none(), st.none(), st.integers(1, 6))),
+                'fn': draw(st.sampled_from([0, 0, 1])),  # which of two decorated functions sharing the semaphore name is called
             })
         sessions.append(callers)
     return {'L': L, 'scope': scope, 'lax': lax, 'sem_timeout': sem_timeout, 'timeout': timeout, 'retries': retries, 'sessions': sessions}
@@ -102,8 +103,9 @@ def _run_case(c, retry):
     live = collections.Counter()
     inflight = collections.Counter()
 
-    @retry(wait=0.125, retries=c['retries'], timeout=c['timeout'], semaphore_limit=L, semaphore_name=name, semaphore_lax=c['lax'], semaphore_scope=c['scope'], semaphore_timeout=c['sem_timeout'])
-    async def body(self, rec):
+    deco = retry(wait=0.125, retries=c['retries'], timeout=c['timeout'], semaphore_limit=L, semaphore_name=name, semaphore_lax=c['lax'], semaphore_scope=c['scope'], semaphore_timeout=c['sem_timeout'])
+
+    async def _body(self, rec):
         loop = asyncio.get_event_loop()
         k = key(self)
         if 'enter' not in rec:
@@ -124,6 +126,16 @@ def _run_case(c, retry):
             raise ValueError('x')
         return 'ok'
 
+    # two different decorated functions that name the SAME semaphore (README: semaphore_name is how functions share one): within one
+    # scope they share the L slots
+    @deco
+    async def body(self, rec):
+        return await _body(self, rec)
+
+    @deco
+    async def other_body(self, rec):
+        return await _body(self, rec)
+
     for si, callers in enumerate(c['sessions']):
         loop = VLoop(spin_budget=60_000)
         asyncio.set_event_loop(loop)
@@ -131,7 +143,7 @@ def _run_case(c, retry):
 
         async def run_call(o, rec):
             try:
-                return await body(o, rec)
+                return await (other_body if rec.get('fn') else body)(o, rec)
             finally:
                 if rec.get('counted'):
                     live[key(o)] -= 1
@@ -143,7 +155,7 @@ def _run_case(c, retry):
                 o = objs[cl['obj']]
                 # callers that have called and not finished yet (holding, waiting or about to acquire): if fewer than L,
                 # a slot is free for this caller whatever the others do
-                rec = {'call': loop.time(), 'd': cl['d'], 'out': cl['out'], 'key': key(o), 'free_at_call': inflight[key(o)] < L}
+                rec = {'call': loop.time(), 'd': cl['d'], 'out': cl['out'], 'key': key(o), 'free_at_call': inflight[key(o)] < L, 'fn': cl.get('fn', 0)}
                 inflight[key(o)] += 1
                 recs.append(rec)
                 t = asyncio.ensure_future(run_call(o, rec))
@@ -226,6 +238,8 @@ def _run_case(c, retry):
                 viol.append(('C20.a', f'harness bookkeeping: {n} bodies still counted in progress for key {k!r} after session {si}'))
                 live[k] = 0
     cl = [k for k in stats if stats[k]] + [f'scope:{c["scope"]}', f'L={L}', 'lax' if c['lax'] else 'strict']
+    if any(len({cl_.get('fn', 0) for cl_ in callers}) == 2 for callers in c['sessions']):
+        cl.append('two-functions-sharing-the-semaphore-name-in-one-session')
     seen, outv = set(), []
     for v in viol:
         if v[0] not in seen:
